@@ -27,7 +27,7 @@ func c11atomic(c *Ctx) {
 			var last *core.Event
 			for i := range p.Events {
 				ev := &p.Events[i]
-				if ev.Depth != 0 {
+				if !own(ev) {
 					continue
 				}
 				if _, is := t.writeEvent(ev); is {
@@ -47,25 +47,57 @@ func c11atomic(c *Ctx) {
 				if fn == wr {
 					covers := func(param int) bool {
 						prm := fn.Params[param]
-						for _, a := range last.Args {
-							found := false
-							a.Walk(func(t *core.Term) bool {
-								if t.Kind == core.KParam && t.Ref == prm {
-									found = true
+						// local allocations reachable from the arguments of the write (varargs arrays, slice headers, net.Buffers values)
+						reach := map[*core.Term]bool{}
+						var addRoots func(t *core.Term)
+						addRoots = func(t *core.Term) {
+							t.Walk(func(y *core.Term) bool {
+								if y.Kind == core.KAlloc {
+									reach[y] = true
 								}
-								return !found
-							})
-							if found {
 								return true
+							})
+						}
+						direct := false
+						for _, a := range append(append([]*core.Term{}, last.Args...), last.Recv) {
+							if a == nil {
+								continue
 							}
-							// variadic slice: elements stored into the varargs array
-							if a.Kind == core.KSlice && a.Args[0].Kind == core.KAlloc {
-								for k := range p.Events {
-									e := &p.Events[k]
-									if e.Kind == core.EvStore && e.Addr.Kind == core.KIndexAddr && e.Addr.Args[0] == a.Args[0] && e.Val.Kind == core.KParam && e.Val.Ref == prm {
-										return true
-									}
+							a.Walk(func(y *core.Term) bool {
+								if y.Kind == core.KParam && y.Ref == prm {
+									direct = true
 								}
+								return !direct
+							})
+							addRoots(a)
+						}
+						if direct {
+							return true
+						}
+						for round := 0; round < 3; round++ {
+							for k := range p.Events {
+								e := &p.Events[k]
+								if e.Kind != core.EvStore {
+									continue
+								}
+								root := e.Addr
+								for root != nil && (root.Kind == core.KIndexAddr || root.Kind == core.KFieldAddr || root.Kind == core.KSlice) {
+									root = root.Args[0]
+								}
+								if root == nil || !reach[root] {
+									continue
+								}
+								hit := false
+								e.Val.Walk(func(y *core.Term) bool {
+									if y.Kind == core.KParam && y.Ref == prm {
+										hit = true
+									}
+									return !hit
+								})
+								if hit {
+									return true
+								}
+								addRoots(e.Val)
 							}
 						}
 						return false
